@@ -133,12 +133,17 @@ def msgUpdateAlliance (s : Signer) (f : AllianceFields) : M Unit := do
           | none => throwE "unknown_asset"
           | some asset =>
             -- the range is not nil-checked: comparing against a nil Dec panics
-            match f.wmin, f.wmax with
-            | some wmin, some wmax =>
-              if wmin > weight ∨ wmax < weight then throwE "weight_out_of_bound"
-              updateAllianceAsset { asset with wmin := wmin, wmax := wmax, weight := weight, takeRate := takeRate,
-                                               changeRate := changeRate, changeIntv := f.changeIntv }
-            | _, _ => panicE "nil"
+            -- short-circuit `Min.GT(w) || Max.LT(w)`: each operand panics only when it is evaluated on a nil Dec
+            match f.wmin with
+            | none => panicE "nil"
+            | some wmin =>
+              if wmin > weight then throwE "weight_out_of_bound"
+              match f.wmax with
+              | none => panicE "nil"
+              | some wmax =>
+                if wmax < weight then throwE "weight_out_of_bound"
+                updateAllianceAsset { asset with wmin := wmin, wmax := wmax, weight := weight, takeRate := takeRate,
+                                                 changeRate := changeRate, changeIntv := f.changeIntv }
 
 def msgDeleteAlliance (s : Signer) (d : Option Denom) : M Unit := do
   if s = .malformed then throwE "invalid_authority"
